@@ -362,7 +362,7 @@ pub fn run(tier: Tier) -> i32 {
                 ChildEnd::Done(out) => handle_out(&out, &mut acc),
                 end => {
                     // crash (abort, stack overflow, OOM) or timeout: rerun traced to pin the input
-                    let trace = format!("{VERIF_ROOT}/target/c03-trace-{}-{}-{}.txt", args[0], args[1], args[2]);
+                    let trace = format!("{}/target/c03-trace-{}-{}-{}.txt", verif_root(), args[0], args[1], args[2]);
                     let crashed = matches!(end, ChildEnd::Crashed(_));
                     let second = run_child(&exe, args, limit * 3, Some(&trace), Some(Duration::from_secs(45)));
                     let culprit: String = serde_json::from_str(&last_line(&trace)).unwrap_or_default();
